@@ -723,7 +723,8 @@ pub fn vx_clone_lc(lc: &Lifecycle) -> (r: Lifecycle)
 //@|    invariant
 //@|        vx_vi <= vx_nv, lcs_w.visible() == old(lcs_w).visible(), tab_ok(lcs_w.wview(), pos@), wdom_ok(pos@, lcs_w.visible(), lcs_w.wview()), lcs_to_refresh@ == old(lcs_to_refresh)@,
 //@|        forall|id: u32| #[trigger] lcs_w.wview().dom().contains(id) ==> old(lcs_w).wview().dom().contains(id) || old(lcs_to_refresh)@.contains(id),
-//@|        pub_cnt(pos@, bset, found, lcs_w.wview(), nr_lcs_to_update as int), found_fresh(pos@, ecu_map.m(), found, lcs_w.wview()),
+//@|        pub_cnt(pos@, bset, found, lcs_w.wview(), nr_lcs_to_update as int), // O:table.refresh.count (the counter is the number of marked lifecycles not yet written: the early exit at 0 loses none)
+//@|        found_fresh(pos@, ecu_map.m(), found, lcs_w.wview()), // O:table.refresh.written_fresh
 //@|        nr_lcs_to_update > 0 ==> pub_done_keys(pos@, ecu_map, bset, found, vx_vi as int),
 //@|    ensures
 //@|        nr_lcs_to_update == 0 || vx_vi == vx_nv,
